@@ -49,6 +49,14 @@ package main
 //     every assignment to x precedes the `&x` in the source and, inside a loop,
 //     x is declared in the same loop body (so nothing can change the pointee
 //     afterwards).  Listed in `addrOfAssigned`.
+//
+// OPT-IN: all of this is ON only for a configuration with `Effects: true`
+// (effectsOn below).  Every hook in the shared files — initEff, assignEff,
+// rangeEff, stmtEff, the bare return and the result type of a function without
+// result, the in-out slices and nil-tested in-out pointers of initInOut,
+// addrSafe, headerEff, emitEffFacts — is behind it, directly or through
+// `f.eff == nil`; go2lean_own.go (Own) covers some of the same Go forms in
+// another way and the two never run together.
 
 import (
 	"fmt"
@@ -92,6 +100,9 @@ func (f *g2lFn) note(list *[][2]string, what string) {
 	}
 	*list = append(*list, [2]string{f.key, what})
 }
+
+// effectsOn: does the configuration ask for this file?
+func (g *g2l) effectsOn() bool { return g.cfg.Effects }
 
 // ---------------------------------------------------------------- context parameters
 
@@ -188,6 +199,9 @@ func (f *g2lFn) inOutArgs(c *ast.CallExpr, fn *types.Func, io []string) []ast.Ex
 // initEff finds the variables the body writes through (directly, or by handing
 // them to a function with in-out parameters) and marks them as mutated.
 func (f *g2lFn) initEff(fd *ast.FuncDecl) {
+	if !f.g.effectsOn() {
+		return // f.eff stays nil: effPlace, assignEff, rangeEff, stmtEff are off
+	}
 	f.eff = &g2lEffFn{through: map[types.Object]bool{}, roots: map[types.Object]bool{}}
 	mark := func(e ast.Expr) {
 		if id, ok := ast.Unparen(e).(*ast.Ident); ok {
@@ -644,6 +658,9 @@ func (f *g2lFn) addrSafe(x *ast.UnaryExpr, o *types.Var) bool {
 // ---------------------------------------------------------------- header and facts
 
 func (g *g2l) effOn() bool {
+	if !g.effectsOn() {
+		return false
+	}
 	if len(g.cfg.Context) > 0 {
 		return true
 	}
